@@ -111,13 +111,13 @@ Qed.
 
 (* ------------------------------------------------------------------ one engine call *)
 
-Lemma engine_call_inv M t streams init rv l r p' rest c :
-  engine_call (empty_path M t) streams init rv l r = Ok (p', rest, c) ->
+Lemma engine_call_inv who M t streams init rv l r p' rest c :
+  engine_call who (empty_path M t) streams init rv l r = Ok (p', rest, c) ->
   exists s0 k, streams = s0 :: rest /\ pts p' = firstn k s0 /\ maxlen p' = M /\ torigin p' = t /\
     (1 <= k <= M)%nat /\ (k <= length s0)%nat /\
     (forall f, In f (firstn (k - 1) s0) -> crossedb l r f = false) /\
     ((k < M)%nat -> stops_at l r s0 k) /\
-    c = mkCall init rv l r M k.
+    c = mkCall who init rv l r M k.
 Proof.
   unfold engine_call. destruct streams as [|s0 rest0]; [discriminate|].
   destruct s0 as [|f tl]; [discriminate|].
@@ -133,10 +133,10 @@ Proof.
   - exists lf. split; [exact Hn|]. destruct succ; [symmetry; exact Hs|]. specialize (K10 eq_refl). lia.
 Qed.
 
-Lemma engine_call_run M t s0 rest init rv l r k :
+Lemma engine_call_run who M t s0 rest init rv l r k :
   stops_at l r s0 k -> (k <= M)%nat ->
-  engine_call (empty_path M t) (s0 :: rest) init rv l r =
-  Ok (mkP (firstn k s0) M t, rest, mkCall init rv l r M k).
+  engine_call who (empty_path M t) (s0 :: rest) init rv l r =
+  Ok (mkP (firstn k s0) M t, rest, mkCall who init rv l r M k).
 Proof.
   intros Hst HkM. pose proof Hst as (Hk1 & Hpre & _).
   destruct (stops_at_split _ _ _ _ Hst) as (lastf & Hs & Hc & Hf & Hlen).
@@ -173,11 +173,11 @@ Lemma retis_path0_acc e0 e1 allowed old1 streams path0 streams1 calls :
     (forall f, In f (firstn (k - 1) s0) -> crossedb (e_i0 e0) (e_i2 e0) f = false) /\
     ((k < e_maxlen e1 - 1)%nat -> stops_at (e_i0 e0) (e_i2 e0) s0 k) /\
     (e_scL e0 = false -> has_L_start_end path0 e0 = false) /\
-    calls = [mkCall (copy_frame 0 f10) true (e_i0 e0) (e_i2 e0) (e_maxlen e1 - 1) k].
+    calls = [mkCall E0 (copy_frame 0 f10) true (e_i0 e0) (e_i2 e0) (e_maxlen e1 - 1) k].
 Proof.
   unfold retis_path0. destruct (first_frame old1) as [f10|]; [|discriminate].
   destruct allowed.
-  - destruct (engine_call _ streams _ true _ _) as [[[ptmp str1] c]|] eqn:E; [|discriminate].
+  - destruct (engine_call _ _ streams _ true _ _) as [[[ptmp str1] c]|] eqn:E; [|discriminate].
     destruct (second_frame old1) as [f11|]; [|discriminate].
     apply engine_call_inv in E. destruct E as (s0 & k & -> & Ep & Em & Et & Ek & Ekl & Epre & Estop & ->).
     set (P := fst (append_all (empty_path (e_maxlen e0) 0) (rev (pts ptmp)))).
@@ -234,11 +234,11 @@ Lemma retis_path1_acc e0 e1 allowed old0 streams path1 streams1 calls :
     maxlen path1 = e_maxlen e1 /\ torigin path1 = 0 /\
     (2 <= k)%nat /\ (k + 1 < e_maxlen e1)%nat /\ (k <= length s1)%nat /\
     stops_at (e_i0 e1) (e_i2 e1) s1 k /\
-    calls = [mkCall (copy_frame 0 f0l) false (e_i0 e1) (e_i2 e1) (e_maxlen e1 - 1) k].
+    calls = [mkCall E1 (copy_frame 0 f0l) false (e_i0 e1) (e_i2 e1) (e_maxlen e1 - 1) k].
 Proof.
   unfold retis_path1. destruct (last_frame old0) as [f0l|]; [|discriminate].
   destruct allowed.
-  - destruct (engine_call _ streams _ false _ _) as [[[ptmp str1] c]|] eqn:E; [|discriminate].
+  - destruct (engine_call _ _ streams _ false _ _) as [[[ptmp str1] c]|] eqn:E; [|discriminate].
     destruct (last2_frame old0) as [f0m2|]; [|discriminate].
     apply engine_call_inv in E. destruct E as (s1 & k & -> & Ep & Em & Et & Ek & Ekl & Epre & Estop & ->).
     set (pp := dump dumpf DSecondLast f0m2).
@@ -352,8 +352,8 @@ Definition retis_acc_shape (e0 e1 : ens) (old0 old1 new0 new1 : path)
     stops_at (e_i0 e1) (e_i2 e1) s1 k1 /\
     (e_scL e0 = false -> has_L_start_end new0 e0 = false) /\
     end_point old0 (e_i0 e0) (e_i2 e0) = Some SR /\ lm1_early e0 old0 = false /\
-    calls = [mkCall (copy_frame 0 f10) true (e_i0 e0) (e_i2 e0) (e_maxlen e1 - 1) k0;
-             mkCall (copy_frame 0 f0l) false (e_i0 e1) (e_i2 e1) (e_maxlen e1 - 1) k1].
+    calls = [mkCall E0 (copy_frame 0 f10) true (e_i0 e0) (e_i2 e0) (e_maxlen e1 - 1) k0;
+             mkCall E1 (copy_frame 0 f0l) false (e_i0 e1) (e_i2 e1) (e_maxlen e1 - 1) k1].
 
 Theorem retis_acc_struct e0 e1 old0 old1 streams draws sp0 sp1 st calls nd :
   retis_swap_zero dumpf e0 e1 old0 old1 streams draws = Out true sp0 sp1 st calls nd ->
@@ -592,7 +592,7 @@ Proof.
   destruct (negb sc).
   { intros H; inversion H; subst. split; [discriminate|]. split; [reflexivity|]. split; [discriminate|].
     exists []. symmetry; apply app_nil_r. }
-  destruct (engine_call _ streams _ true _ _) as [[[back0 str1] c0]|]; [|discriminate].
+  destruct (engine_call _ _ streams _ true _ _) as [[[back0 str1] c0]|]; [|discriminate].
   match goal with |- context [is_acc ?x] => set (st0 := x) end.
   assert (Hst0 : st0 <> QEA) by (unfold st0; case_ifs; discriminate).
   destruct (is_acc st0) eqn:A0; cbn [negb].
@@ -602,7 +602,7 @@ Proof.
   destruct (ford _ <? _).
   { intros H; inversion H; subst. split; [discriminate|]. split; [reflexivity|]. split; [discriminate|].
     eexists; reflexivity. }
-  destruct (engine_call _ str1 _ false _ _) as [[[forw1 str2] c1]|]; [|discriminate].
+  destruct (engine_call _ _ str1 _ false _ _) as [[[forw1 str2] c1]|]; [|discriminate].
   destruct (start_point _ _ _) as [sp|]; [|discriminate].
   match goal with |- context [is_acc ?x] => set (st1 := x) end.
   assert (Hst1 : st1 <> QEA) by (unfold st1; case_ifs; discriminate).
@@ -635,9 +635,9 @@ Proof.
   destruct (last2_frame (sp_path old0)) as [f0m2|] eqn:Ef0m2; [|discriminate].
   destruct (is_none _ || is_none _); [intros H; inversion H|].
   destruct (negb _ || negb _); [intros H; inversion H|].
-  destruct (engine_call (empty_path 2 0) streams _ false _ _) as [[[tmp0 str1] c0]|] eqn:E0; [|discriminate].
+  destruct (engine_call _ (empty_path 2 0) streams _ false _ _) as [[[tmp0 str1] c0]|] eqn:E0; [|discriminate].
   destruct (negb (end_is_R1 tmp0 _)); [intros H; inversion H|].
-  destruct (engine_call (empty_path 2 0) str1 _ false _ _) as [[[tmp1 str2] c1]|] eqn:E1; [|discriminate].
+  destruct (engine_call _ (empty_path 2 0) str1 _ false _ _) as [[[tmp1 str2] c1]|] eqn:E1; [|discriminate].
   destruct (negb (end_is_R1 tmp1 _)); [intros H; inversion H|].
   apply engine_call_inv in E0. destruct E0 as (s0 & k0 & -> & Ep0 & _ & _ & Hk0 & Hk0l & _ & _ & ->).
   apply engine_call_inv in E1. destruct E1 as (s1 & k1 & -> & Ep1 & _ & _ & Hk1 & Hk1l & _ & _ & ->).
@@ -703,14 +703,14 @@ Proof.
 Qed.
 
 (* hence the swap model is the same function over either rule: it never reads the success flag *)
-Theorem engine_call_rule_irrelevant p streams init rv l r :
-  engine_call p streams init rv l r =
+Theorem engine_call_rule_irrelevant who p streams init rv l r :
+  engine_call who p streams init rv l r =
   match streams with
   | [] => Err EExhausted
   | [] :: _ => Err EExhausted
   | (f :: tl) :: rest =>
       match propagate p f tl l r with
-      | PR p' _ n => Ok (p', rest, mkCall init rv l r (maxlen p) n)
+      | PR p' _ n => Ok (p', rest, mkCall who init rv l r (maxlen p) n)
       | PRExhausted _ => Err EExhausted
       | PRError => Err ERaise
       end
@@ -750,8 +750,8 @@ Theorem retis_swap_complete e0 e1 old0 old1 s0 s1 rest draws f10 f11 tl1 pre0 f0
     retis_swap_zero dumpf e0 e1 old0 old1 (s0 :: s1 :: rest) draws =
     Out true (mkSP (mkP (rev (firstn k0 s0) ++ [dump dumpf DSecond f11]) (e_maxlen e0) 0) ACC 1)
              (mkSP path1 ACC 1) ACC
-        [mkCall (copy_frame 0 f10) true (e_i0 e0) (e_i2 e0) (e_maxlen e1 - 1) k0;
-         mkCall (copy_frame 0 f0l) false (e_i0 e1) (e_i2 e1) (e_maxlen e1 - 1) k1] 0.
+        [mkCall E0 (copy_frame 0 f10) true (e_i0 e0) (e_i2 e0) (e_maxlen e1 - 1) k0;
+         mkCall E1 (copy_frame 0 f0l) false (e_i0 e1) (e_i2 e1) (e_maxlen e1 - 1) k1] 0.
 Proof.
   intros Ho1 Ho0 Hep Hearly Hst0 Hk0 Hk0m Hk0m1 Hst1 Hk1 Hk1m HL Hwf.
   apply orb_false_iff in Hwf as [Hwf0 Hwf1].
@@ -762,9 +762,9 @@ Proof.
   (* path0 *)
   assert (E0 : retis_path0 dumpf e0 e1 true (sp_path old1) (s0 :: s1 :: rest) =
                Ok (mkP (rev (firstn k0 s0) ++ [dump dumpf DSecond f11]) (e_maxlen e0) 0, ACC, s1 :: rest,
-                   [mkCall (copy_frame 0 f10) true (e_i0 e0) (e_i2 e0) (e_maxlen e1 - 1) k0])).
+                   [mkCall E0 (copy_frame 0 f10) true (e_i0 e0) (e_i2 e0) (e_maxlen e1 - 1) k0])).
   { unfold retis_path0, first_frame, second_frame. rewrite Ho1. cbn [nth_error].
-    rewrite (engine_call_run _ _ _ _ _ _ _ _ _ Hst0 Hk0m1). cbn [pts].
+    rewrite (engine_call_run _ _ _ _ _ _ _ _ _ _ Hst0 Hk0m1). cbn [pts].
     set (P := fst (append_all (empty_path (e_maxlen e0) 0) (rev (firstn k0 s0)))).
     assert (HP : P = mkP (rev (firstn k0 s0)) (e_maxlen e0) 0).
     { pose proof (append_all_spec (empty_path (e_maxlen e0) 0) (rev (firstn k0 s0))) as (A & B & C & _).
@@ -797,9 +797,9 @@ Proof.
   assert (Hlen1 : plen path1 = S k1).
   { rewrite plen_map_erase, HP1. cbn [length]. rewrite map_length, firstn_length. lia. }
   assert (E1 : retis_path1 dumpf e0 e1 true (sp_path old0) (s1 :: rest) =
-               Ok (path1, ACC, rest, [mkCall (copy_frame 0 f0l) false (e_i0 e1) (e_i2 e1) (e_maxlen e1 - 1) k1])).
+               Ok (path1, ACC, rest, [mkCall E1 (copy_frame 0 f0l) false (e_i0 e1) (e_i2 e1) (e_maxlen e1 - 1) k1])).
   { unfold retis_path1, last_frame, last2_frame. rewrite Ho0, rev_app_distr. cbn [rev app nth_error].
-    rewrite (engine_call_run _ _ _ _ _ _ _ _ _ Hst1) by lia.
+    rewrite (engine_call_run _ _ _ _ _ _ _ _ _ _ Hst1) by lia.
     fold tmp1. fold Q. fold path1. rewrite Hlen1.
     destruct (Nat.leb_spec (e_maxlen e1) (S k1)); [lia|]. destruct (Nat.ltb_spec (S k1) 3); [lia|]. reflexivity. }
   exists path1. split; [exact HP1|]. split; [apply HP1m|]. split; [apply HP1m|].
@@ -1284,6 +1284,335 @@ Qed.
 
 End Rev.
 
+(* ================================================================== two different engines *)
+(* [0-] driven by (T0, R0), [0+] by (T1, R1): both deterministic and time-reversible, over the
+   same phase space, configurations and order parameter (see SwapM.Reversible2).  The lemmas of
+   section Rev are used once per engine. *)
+Section Rev2.
+Variable X : Type.
+Variable T0 R0 T1 R1 : X -> X.
+Variable ord : X -> Z.
+Variable enc : X -> Z.
+Variable dec : Z -> X.
+Hypothesis HRR0 : forall x, R0 (R0 x) = x.
+Hypothesis HRT0 : forall x, R0 (T0 (R0 (T0 x))) = x.
+Hypothesis Hord0 : forall x, ord (R0 x) = ord x.
+Hypothesis HRR1 : forall x, R1 (R1 x) = x.
+Hypothesis HRT1 : forall x, R1 (T1 (R1 (T1 x))) = x.
+Hypothesis Hord1 : forall x, ord (R1 x) = ord x.
+Hypothesis Hdec : forall x, dec (enc x) = x.
+
+Notation traj0 := (traj X T0).
+Notation traj1 := (traj X T1).
+Notation itraj0 := (itraj X T0 R0).
+Notation phys0 := (phys X R0 dec).
+Notation phys1 := (phys X R1 dec).
+Notation stream0 := (det_stream X T0 R0 ord enc dec).
+Notation stream1 := (det_stream X T1 R1 ord enc dec).
+Notation det_retis2 := (det_retis2 X T0 R0 T1 R1 ord enc dec).
+Notation eng_stream := (eng_stream X T0 R0 T1 R1 ord enc dec).
+
+Lemma eng_stream_E0 n f rv : eng_stream E0 n f rv = stream0 n f rv.
+Proof. reflexivity. Qed.
+Lemma eng_stream_E1 n f rv : eng_stream E1 n f rv = stream1 n f rv.
+Proof. reflexivity. Qed.
+
+(* the order parameter of the state a frame stands for does not depend on which engine reads it *)
+Lemma ord_phys0 f : ord (phys0 f) = ord (dec (ftag f)).
+Proof. unfold SwapM.phys. destruct (frev f); [apply Hord0|reflexivity]. Qed.
+Lemma ord_phys1 f : ord (phys1 f) = ord (dec (ftag f)).
+Proof. unfold SwapM.phys. destruct (frev f); [apply Hord1|reflexivity]. Qed.
+Lemma ord_phys_10 f : ord (phys1 f) = ord (phys0 f).
+Proof. rewrite ord_phys0, ord_phys1. reflexivity. Qed.
+
+Lemma obp0 n f k : (k <= n)%nat ->
+  map ford (firstn k (stream0 n f true)) = map ord (itraj0 k (phys0 f)).
+Proof. apply (orders_back_prefix X T0 R0 ord enc dec HRR0 Hord0 Hdec). Qed.
+Lemma ofp1 n f k : (k <= n)%nat ->
+  map ford (firstn k (stream1 n f false)) = map ord (traj1 k (phys1 f)).
+Proof. apply (orders_forw_prefix X T1 R1 ord enc dec Hord1 Hdec). Qed.
+
+Lemma det_retis2_shape n e0 e1 old0 old1 new0 new1 st calls nd :
+  det_retis2 n e0 e1 old0 old1 = Out true new0 new1 st calls nd ->
+  exists f10 f11 tl1 pre0 f0m2 f0l k0 k1,
+    pts (sp_path old1) = f10 :: f11 :: tl1 /\ pts (sp_path old0) = pre0 ++ [f0m2; f0l] /\
+    pts (sp_path new0) = rev (firstn k0 (stream0 n (copy_frame 0 f10) true)) ++ [dump idump DSecond f11] /\
+    map erase (pts (sp_path new1)) =
+      erase (dump idump DSecondLast f0m2) :: map erase (firstn k1 (stream1 n (copy_frame 0 f0l) false)) /\
+    (2 <= k0 <= n)%nat /\ (k0 + 1 < e_maxlen e0)%nat /\
+    ((k0 < e_maxlen e1 - 1)%nat -> stops_at (e_i0 e0) (e_i2 e0) (stream0 n (copy_frame 0 f10) true) k0) /\
+    (2 <= k1 <= n)%nat /\ stops_at (e_i0 e1) (e_i2 e1) (stream1 n (copy_frame 0 f0l) false) k1 /\
+    calls = [mkCall E0 (copy_frame 0 f10) true (e_i0 e0) (e_i2 e0) (e_maxlen e1 - 1) k0;
+             mkCall E1 (copy_frame 0 f0l) false (e_i0 e1) (e_i2 e1) (e_maxlen e1 - 1) k1].
+Proof.
+  unfold SwapM.det_retis2.
+  destruct (first_frame (sp_path old1)) as [f|] eqn:Ef; [|discriminate].
+  destruct (last_frame (sp_path old0)) as [g|] eqn:Eg; [|discriminate].
+  rewrite eng_stream_E0, eng_stream_E1.
+  intros H. apply retis_acc_struct in H as (_ & _ & _ & Hsh).
+  destruct Hsh as (f10 & f11 & tl1 & pre0 & f0m2 & f0l & s0 & s1 & rest & k0 & k1 & Ho1 & Ho0 & Hs & Hp0 & _ & _ & Hp1 & _ & _ &
+          Hk0 & Hk0m & _ & _ & Hstop0 & Hk1 & _ & Hstop1 & _ & _ & _ & Hc).
+  unfold first_frame in Ef. rewrite Ho1 in Ef. injection Ef as <-.
+  unfold last_frame in Eg. rewrite Ho0, rev_app_distr in Eg. injection Eg as <-.
+  injection Hs as <- <- _.
+  rewrite stream_length in Hk0, Hk1.
+  exists f10, f11, tl1, pre0, f0m2, f0l, k0, k1.
+  split; [exact Ho1|]. split; [exact Ho0|]. split; [exact Hp0|]. split; [exact Hp1|]. split; [lia|].
+  split; [exact Hk0m|]. split; [exact Hstop0|]. split; [lia|]. split; [exact Hstop1|exact Hc].
+Qed.
+
+(* which engine is called for which run, and that the streams det_retis2 hands to the model are
+   the answers of exactly those engines *)
+Theorem det_retis2_engines n e0 e1 old0 old1 new0 new1 st calls nd :
+  det_retis2 n e0 e1 old0 old1 = Out true new0 new1 st calls nd ->
+  exists f10 f0l,
+    first_frame (sp_path old1) = Some f10 /\ last_frame (sp_path old0) = Some f0l /\
+    map c_eng calls = [E0; E1] /\ map c_rev calls = [true; false] /\
+    map c_init calls = [copy_frame 0 f10; copy_frame 0 f0l] /\
+    streams_of_engines X T0 R0 T1 R1 ord enc dec n
+      [eng_stream E0 n (copy_frame 0 f10) true; eng_stream E1 n (copy_frame 0 f0l) false] calls.
+Proof.
+  intros D. apply det_retis2_shape in D.
+  destruct D as (f10 & f11 & tl1 & pre0 & f0m2 & f0l & k0 & k1 & Ho1 & Ho0 & _ & _ & _ & _ & _ & _ & _ & ->).
+  exists f10, f0l. unfold first_frame, last_frame. rewrite Ho1, Ho0, rev_app_distr.
+  split; [reflexivity|]. split; [reflexivity|]. split; [reflexivity|]. split; [reflexivity|]. split; [reflexivity|].
+  intros [|[|k]] c s Hc Hs; cbn in Hc, Hs; try (destruct k; discriminate);
+    injection Hc as <-; injection Hs as <-; reflexivity.
+Qed.
+
+(* which dynamics generates which segment: apart from the shared frame old[0+][1] at its end, the
+   new [0-] path is the backward trajectory of the [0-] engine (T0^-1 iterated) from the state of
+   old[0+][0]; apart from the shared frame old[0-][-2] at its start, the new [0+] path is the
+   forward trajectory of the [0+] engine (T1 iterated) from the state of old[0-][-1] *)
+Theorem det_retis2_segments n e0 e1 old0 old1 new0 new1 st calls nd :
+  det_retis2 n e0 e1 old0 old1 = Out true new0 new1 st calls nd ->
+  exists f10 f11 tl1 pre0 f0m2 f0l k0 k1,
+    pts (sp_path old1) = f10 :: f11 :: tl1 /\ pts (sp_path old0) = pre0 ++ [f0m2; f0l] /\
+    map c_eng calls = [E0; E1] /\ map c_used calls = [k0; k1] /\
+    orders (sp_path new0) = rev (map ord (itraj0 k0 (phys0 f10))) ++ [ford f11] /\
+    orders (sp_path new1) = ford f0m2 :: map ord (traj1 k1 (phys1 f0l)).
+Proof.
+  intros D. apply det_retis2_shape in D.
+  destruct D as (f10 & f11 & tl1 & pre0 & f0m2 & f0l & k0 & k1 & Ho1 & Ho0 & Hn0 & Hn1 & Hk0 & _ & _ & Hk1 & _ & ->).
+  exists f10, f11, tl1, pre0, f0m2, f0l, k0, k1.
+  split; [exact Ho1|]. split; [exact Ho0|]. split; [reflexivity|]. split; [reflexivity|]. split.
+  - unfold orders. rewrite Hn0, map_app, map_rev, obp0 by lia. reflexivity.
+  - unfold orders. rewrite map_ford_erase, Hn1. cbn [map erase dump ford fst].
+    rewrite <- map_ford_erase, ofp1 by lia. reflexivity.
+Qed.
+
+Theorem swap_twice_id2 n e0 e1 old0 old1 a0 b0 new0 new1 st calls nd new0' new1' st' calls' nd' :
+  phys_path X T0 R0 ord dec a0 (sp_path old0) -> phys_path X T1 R1 ord dec b0 (sp_path old1) ->
+  minus_shape e0 (sp_path old0) -> plus_shape e1 (sp_path old1) ->
+  (e_maxlen e0 <= e_maxlen e1)%nat ->
+  det_retis2 n e0 e1 old0 old1 = Out true new0 new1 st calls nd ->
+  det_retis2 n e0 e1 new0 new1 = Out true new0' new1' st' calls' nd' ->
+  orders (sp_path new0') = orders (sp_path old0) /\ orders (sp_path new1') = orders (sp_path old1).
+Proof.
+  intros [Hpa Hoa] [Hpb Hob] (fa & mid0 & fl & Hsa & Hca & Hma) (fb & mid1 & fz & Hsb & Hcz & Hmb) Hml D1 D2.
+  apply det_retis2_shape in D1.
+  destruct D1 as (f10 & f11 & tl1 & pre0 & f0m2 & f0l & k0 & k1 & Ho1 & Ho0 & Hn0 & Hn1 & Hk0 & _ & _ & Hk1 & _).
+  apply det_retis2_shape in D2.
+  destruct D2 as (F10 & F11 & TL1 & PRE0 & F0m2 & F0l & K0 & K1 & HO1 & HO0 & HN0 & HN1 & HK0 & HK0m & HST0 & HK1 & HST1 & _).
+  (* the old [0-] path in terms of the [0-] dynamics *)
+  unfold plen in Hpa, Hoa, Hpb, Hob. unfold orders in Hoa, Hob.
+  rewrite Ho0 in Hpa, Hoa. rewrite app_length in Hpa, Hoa. cbn [length] in Hpa, Hoa.
+  rewrite traj_app in Hpa, Hoa. cbn [SwapM.traj] in Hpa, Hoa. rewrite !map_app in Hpa. rewrite !map_app in Hoa. cbn [map] in Hpa, Hoa.
+  set (xx := itn X T0 (length pre0) a0) in *.
+  apply app_eq_len in Hpa as [Hpa1 Hpa2]; [|rewrite map_length, traj_length; reflexivity].
+  apply app_eq_len in Hoa as [Hoa1 Hoa2]; [|rewrite !map_length, traj_length; reflexivity].
+  injection Hpa2 as Hx Hx'. injection Hoa2 as Hfx Hfx'.
+  (* the old [0+] path in terms of the [0+] dynamics *)
+  rewrite Ho1 in Hpb, Hob. cbn [length SwapM.traj map] in Hpb, Hob.
+  injection Hpb as Hb0 Hb1 Hbt. injection Hob as Hfb0 Hfb1 Hfbt.
+  (* junction frames of the intermediate paths *)
+  assert (HF10 : phys0 F10 = xx /\ ford F11 = ford f0l).
+  { pose proof (f_equal (map (physE X R0 dec)) Hn1) as E1. rewrite <- map_phys_erase, HO1 in E1. cbn [map] in E1.
+    injection E1 as E1 _. change (phys0 F10 = phys0 f0m2) in E1. split; [congruence|].
+    pose proof (f_equal (map (fun e : Z * Z * bool => fst (fst e))) Hn1) as E2.
+    rewrite HO1 in E2. cbn [map] in E2. rewrite <- !map_ford_erase in E2. rewrite ofp1 in E2 by lia.
+    destruct k1 as [|k1]; [lia|]. cbn [SwapM.traj map] in E2. injection E2 as _ E2 _.
+    change (phys1 (copy_frame 0 f0l)) with (phys1 f0l) in E2. rewrite E2, Hfx', <- Hx'. apply ord_phys_10. }
+  destruct HF10 as [HF10 HF11].
+  assert (HF0 : F0l = dump idump DSecond f11 /\ ford F0m2 = ford f10).
+  { rewrite HO0 in Hn0. destruct k0 as [|k0]; [lia|].
+    pose proof (obp0 n (copy_frame 0 f10) (S k0) ltac:(lia)) as E.
+    destruct (stream0 n (copy_frame 0 f10) true) as [|g0 r0]; [cbn in E; discriminate|].
+    cbn [firstn rev itraj map] in Hn0, E. injection E as E _.
+    change (PRE0 ++ [F0m2; F0l]) with (PRE0 ++ [F0m2] ++ [F0l]) in Hn0. rewrite app_assoc in Hn0.
+    apply app_inj_tail in Hn0 as [Hn0 ->]. apply app_inj_tail in Hn0 as [_ ->]. split; [reflexivity|].
+    rewrite E. change (phys0 (copy_frame 0 f10)) with (phys0 f10). rewrite Hfb0, <- Hb0. symmetry. apply ord_phys_10. }
+  destruct HF0 as [-> HF0m2].
+  split.
+  - (* [0-]: all [0-] dynamics *)
+    unfold orders. rewrite HN0, Ho0, map_app, map_rev. cbn [map dump ford].
+    rewrite obp0 by lia. change (phys0 (copy_frame 0 F10)) with (phys0 F10). rewrite HF10, HF11.
+    assert (Hst : stops_at (e_i0 e0) (e_i2 e0) (stream0 n (copy_frame 0 F10) true) K0) by (apply HST0; lia).
+    apply stops_at_fcross in Hst. rewrite obp0 in Hst by lia.
+    change (phys0 (copy_frame 0 F10)) with (phys0 F10) in Hst. rewrite HF10 in Hst.
+    assert (Hsplit : pre0 ++ [f0m2] = fa :: mid0 /\ f0l = fl).
+    { rewrite Ho0 in Hsa. change (pre0 ++ [f0m2; f0l]) with (pre0 ++ [f0m2] ++ [f0l]) in Hsa.
+      rewrite app_assoc in Hsa. change (fa :: mid0 ++ [fl]) with ((fa :: mid0) ++ [fl]) in Hsa.
+      apply app_inj_tail in Hsa. exact Hsa. }
+    destruct Hsplit as [Hsplit _].
+    assert (Hrev : map ord (itraj0 (S (length pre0)) xx) = rev (map ford (pre0 ++ [f0m2]))).
+    { unfold xx. rewrite (itraj_rev X T0 R0 HRT0), map_rev. f_equal.
+      replace (S (length pre0)) with (length pre0 + 1)%nat by lia. rewrite traj_app. cbn [SwapM.traj]. fold xx.
+      rewrite !map_app. cbn [map]. rewrite <- Hoa1, <- Hfx. reflexivity. }
+    assert (Hold : fcross (e_i0 e0) (e_i2 e0) (map ord (itraj0 (S (length pre0)) xx))).
+    { rewrite Hrev, Hsplit. cbn [map rev]. exists (rev (map ford mid0)), (ford fa).
+      split; [reflexivity|]. split; [|exact Hca].
+      intros o Ho. apply in_rev, in_map_iff in Ho as (f & <- & Hf). apply (Hma _ Hf). }
+    pose proof (fcross_comparable_eq _ _ _ _ Hst Hold
+                  (comparable_map ord _ _ (itraj_comparable X T0 R0 K0 (S (length pre0)) xx))) as Heq.
+    rewrite Heq, Hrev, rev_involutive, !map_app. cbn [map].
+    rewrite <- app_assoc. reflexivity.
+  - (* [0+]: all [0+] dynamics *)
+    unfold orders. rewrite map_ford_erase, HN1, Ho1. cbn [map erase dump ford fst].
+    rewrite <- map_ford_erase, ofp1 by lia.
+    change (phys1 (copy_frame 0 (dump idump DSecond f11))) with (phys1 f11).
+    rewrite <- Hb1 in *. rewrite HF0m2. f_equal.
+    apply stops_at_fcross in HST1. rewrite ofp1 in HST1 by lia.
+    change (phys1 (copy_frame 0 (dump idump DSecond f11))) with (phys1 f11) in HST1.
+    assert (Hsplit : f11 :: tl1 = mid1 ++ [fz]).
+    { rewrite Ho1 in Hsb. injection Hsb as _ Hsb. exact Hsb. }
+    assert (Hold : fcross (e_i0 e1) (e_i2 e1) (map ord (traj1 (S (length tl1)) (phys1 f11)))).
+    { cbn [SwapM.traj map]. rewrite <- Hfb1, <- Hfbt. change (ford f11 :: map ford tl1) with (map ford (f11 :: tl1)).
+      rewrite Hsplit, map_app. exists (map ford mid1), (ford fz). split; [reflexivity|]. split; [|exact Hcz].
+      intros o Ho. apply in_map_iff in Ho as (f & <- & Hf). apply (Hmb _ Hf). }
+    pose proof (fcross_comparable_eq _ _ _ _ HST1 Hold
+                  (comparable_map ord _ _ (traj_comparable X T1 K1 (S (length tl1)) (phys1 f11)))) as Heq.
+    rewrite Heq. cbn [SwapM.traj map]. rewrite <- Hfb1, <- Hfbt. reflexivity.
+Qed.
+
+Theorem swap_back_accepted2 n e0 e1 old0 old1 a0 b0 new0 new1 st calls nd :
+  phys_path X T0 R0 ord dec a0 (sp_path old0) -> phys_path X T1 R1 ord dec b0 (sp_path old1) ->
+  minus_valid e0 (sp_path old0) -> plus_valid e1 (sp_path old1) ->
+  (e_maxlen e0 <= e_maxlen e1)%nat ->
+  (plen (sp_path old0) < e_maxlen e0)%nat -> (plen (sp_path old1) < e_maxlen e1)%nat ->
+  (plen (sp_path old0) - 1 <= n)%nat -> (plen (sp_path old1) - 1 <= n)%nat ->
+  e_i0 e0 <= e_i1 e0 <= e_i2 e0 -> e_i0 e0 < e_i2 e0 -> e_i2 e0 = e_i0 e1 ->
+  is_wf (e_move e0) || is_wf (e_move e1) = false ->
+  det_retis2 n e0 e1 old0 old1 = Out true new0 new1 st calls nd ->
+  exists new0' new1' calls', det_retis2 n e0 e1 new0 new1 = Out true new0' new1' ACC calls' 0.
+Proof.
+  intros [Hpa Hoa] [Hpb Hob] (fa & mid0 & fl & Hsa & Hmid0 & Hca & HscL & Hma & Hfl)
+         (fb & mid1 & fz & Hsb & Hmid1 & Hcz & Hmb) Hml Hlen0 Hlen1 Hn0' Hn1' Hio Hlt Hlam Hwf D1.
+  apply det_retis2_shape in D1.
+  destruct D1 as (f10 & f11 & tl1 & pre0 & f0m2 & f0l & k0 & k1 & Ho1 & Ho0 & Hn0 & Hn1 & Hk0 & _ & _ & Hk1 & _).
+  unfold plen in *. unfold orders in Hoa, Hob.
+  rewrite Ho0 in Hpa, Hoa, Hlen0, Hn0'. rewrite app_length in Hpa, Hoa, Hlen0, Hn0'. cbn [length] in Hpa, Hoa, Hlen0, Hn0'.
+  rewrite traj_app in Hpa, Hoa. cbn [SwapM.traj] in Hpa, Hoa. rewrite !map_app in Hpa. rewrite !map_app in Hoa. cbn [map] in Hpa, Hoa.
+  set (xx := itn X T0 (length pre0) a0) in *.
+  apply app_eq_len in Hpa as [Hpa1 Hpa2]; [|rewrite map_length, traj_length; reflexivity].
+  apply app_eq_len in Hoa as [Hoa1 Hoa2]; [|rewrite !map_length, traj_length; reflexivity].
+  injection Hpa2 as Hx Hx'. injection Hoa2 as Hfx Hfx'.
+  rewrite Ho1 in Hpb, Hob, Hlen1, Hn1'. cbn [length SwapM.traj map] in Hpb, Hob, Hlen1, Hn1'.
+  injection Hpb as Hb0 Hb1 Hbt. injection Hob as Hfb0 Hfb1 Hfbt.
+  assert (Hsplit0 : pre0 ++ [f0m2] = fa :: mid0 /\ f0l = fl).
+  { rewrite Ho0 in Hsa. change (pre0 ++ [f0m2; f0l]) with (pre0 ++ [f0m2] ++ [f0l]) in Hsa.
+    rewrite app_assoc in Hsa. change (fa :: mid0 ++ [fl]) with ((fa :: mid0) ++ [fl]) in Hsa.
+    apply app_inj_tail in Hsa. exact Hsa. }
+  destruct Hsplit0 as [Hsplit0 ->].
+  assert (Hsplit1 : f10 = fb /\ f11 :: tl1 = mid1 ++ [fz]).
+  { rewrite Ho1 in Hsb. injection Hsb as -> Hsb. auto. }
+  destruct Hsplit1 as [-> Hsplit1].
+  assert (Hf11 : e_i2 e0 <= ford f11).
+  { destruct mid1 as [|m1 mid1]; [congruence|]. injection Hsplit1 as -> _.
+    specialize (Hmb m1 (or_introl eq_refl)). apply crossedb_false in Hmb. lia. }
+  (* frames of the intermediate paths *)
+  destruct (pts (sp_path new1)) as [|F10 [|F11 TL1]] eqn:HO1; [discriminate| |].
+  { exfalso. apply (f_equal (@length (Z * Z * bool))) in Hn1. cbn [map length] in Hn1.
+    rewrite map_length, firstn_length, stream_length in Hn1. lia. }
+  assert (HF10 : phys0 F10 = xx).
+  { pose proof (f_equal (map (physE X R0 dec)) Hn1) as E1. cbn [map] in E1. injection E1 as E1 _.
+    change (phys0 F10 = phys0 f0m2) in E1. congruence. }
+  destruct k0 as [|k0]; [lia|].
+  pose proof (obp0 n (copy_frame 0 fb) (S k0) ltac:(lia)) as Eg0.
+  destruct (stream0 n (copy_frame 0 fb) true) as [|g0 r0] eqn:Es0; [cbn in Eg0; discriminate|].
+  cbn [firstn rev] in Hn0. rewrite <- app_assoc in Hn0. cbn [app] in Hn0.
+  set (PRE0 := rev (firstn k0 r0)) in *.
+  (* orders of the streams of the second swap *)
+  assert (Hrev : map ord (itraj0 (S (length pre0)) xx) = rev (map ford (fa :: mid0))).
+  { rewrite <- Hsplit0. unfold xx. rewrite (itraj_rev X T0 R0 HRT0), map_rev. f_equal.
+    replace (S (length pre0)) with (length pre0 + 1)%nat by lia. rewrite traj_app. cbn [SwapM.traj]. fold xx.
+    rewrite !map_app. cbn [map]. rewrite <- Hoa1, <- Hfx. reflexivity. }
+  assert (HS0 : stops_at (e_i0 e0) (e_i2 e0) (stream0 n (copy_frame 0 F10) true) (S (length pre0))).
+  { apply fcross_stops_at; [rewrite stream_length; lia|].
+    rewrite obp0 by lia. change (phys0 (copy_frame 0 F10)) with (phys0 F10). rewrite HF10, Hrev.
+    cbn [map rev]. exists (rev (map ford mid0)), (ford fa). split; [reflexivity|]. split; [|exact Hca].
+    intros o Ho. apply in_rev, in_map_iff in Ho as (f & <- & Hf). apply (Hma _ Hf). }
+  assert (HS1 : stops_at (e_i0 e1) (e_i2 e1) (stream1 n (copy_frame 0 (dump idump DSecond f11)) false) (S (length tl1))).
+  { apply fcross_stops_at; [rewrite stream_length; lia|].
+    rewrite ofp1 by lia. change (phys1 (copy_frame 0 (dump idump DSecond f11))) with (phys1 f11).
+    rewrite Hb1. cbn [SwapM.traj map]. rewrite <- Hfb1, <- Hfbt.
+    change (ford f11 :: map ford tl1) with (map ford (f11 :: tl1)). rewrite Hsplit1, map_app.
+    exists (map ford mid1), (ford fz). split; [reflexivity|]. split; [|exact Hcz].
+    intros o Ho. apply in_map_iff in Ho as (f & <- & Hf). apply (Hmb _ Hf). }
+  assert (Hlenm0 : length (fa :: mid0) = S (length pre0)).
+  { rewrite <- Hsplit0, app_length. cbn. lia. }
+  assert (Hmid0len : (1 <= length mid0)%nat) by (destruct mid0; [congruence|cbn; lia]).
+  cbn [length] in Hlenm0.
+  assert (Htl1 : (1 <= length tl1)%nat).
+  { apply (f_equal (@length frame)) in Hsplit1. rewrite app_length in Hsplit1. cbn [length] in Hsplit1.
+    destruct mid1; [congruence|]. cbn [length] in Hsplit1. lia. }
+  (* the second swap *)
+  assert (Hio0 : orders (sp_path new0) = map ford PRE0 ++ [ford g0; ford f11]).
+  { unfold orders. rewrite Hn0, map_app. reflexivity. }
+  destruct (retis_swap_complete idump e0 e1 new0 new1
+              (stream0 n (copy_frame 0 F10) true) (stream1 n (copy_frame 0 (dump idump DSecond f11)) false) [] []
+              F10 F11 TL1 PRE0 g0 (dump idump DSecond f11) (S (length pre0)) (S (length tl1)))
+    as (path1 & _ & _ & _ & Hres); try assumption; try lia.
+  - unfold end_point. rewrite Hio0. destruct (Z.ltb_spec (e_i2 e0) (e_i0 e0)); [lia|].
+    rewrite rev_app_distr. cbn [rev app]. unfold classify.
+    destruct (Z.leb_spec (ford f11) (e_i0 e0)); [lia|]. destruct (Z.leb_spec (e_i2 e0) (ford f11)); [reflexivity|lia].
+  - destruct (lm1_early e0 (sp_path new0)) eqn:El; [|reflexivity].
+    apply (lm1_early_spec _ _ Hio) in El as (_ & _ & pre & o & E & Ho). rewrite Hio0 in E.
+    change (map ford PRE0 ++ [ford g0; ford f11]) with (map ford PRE0 ++ [ford g0] ++ [ford f11]) in E.
+    rewrite app_assoc in E. apply app_inj_tail in E as [_ E]. lia.
+  - intros HL. eapply (has_L_false _ _ (ford fa) (map ford mid0) (ford F11) Hio).
+    + unfold orders. cbn [pts]. rewrite map_app, map_rev, obp0 by lia.
+      change (phys0 (copy_frame 0 F10)) with (phys0 F10). rewrite HF10, Hrev, rev_involutive. reflexivity.
+    + specialize (HscL HL). lia.
+    + pose proof (f_equal (map (fun e : Z * Z * bool => fst (fst e))) Hn1) as E2.
+      cbn [map] in E2. rewrite <- !map_ford_erase in E2. rewrite ofp1 in E2 by lia.
+      destruct k1 as [|k1]; [lia|]. cbn [SwapM.traj map] in E2. injection E2 as _ E2 _.
+      change (phys1 (copy_frame 0 fl)) with (phys1 fl) in E2. rewrite E2, ord_phys_10, Hx', <- Hfx'. lia.
+  - unfold SwapM.det_retis2. unfold first_frame, last_frame. rewrite HO1, Hn0.
+    change (PRE0 ++ [g0; dump idump DSecond f11]) with (PRE0 ++ [g0] ++ [dump idump DSecond f11]).
+    rewrite app_assoc, rev_app_distr. cbn [rev app nth_error].
+    eexists _, _, _. exact Hres.
+Qed.
+
+Theorem swap_twice_restores2 n e0 e1 old0 old1 a0 b0 new0 new1 st calls nd :
+  phys_path X T0 R0 ord dec a0 (sp_path old0) -> phys_path X T1 R1 ord dec b0 (sp_path old1) ->
+  minus_valid e0 (sp_path old0) -> plus_valid e1 (sp_path old1) ->
+  (e_maxlen e0 <= e_maxlen e1)%nat ->
+  (plen (sp_path old0) < e_maxlen e0)%nat -> (plen (sp_path old1) < e_maxlen e1)%nat ->
+  (plen (sp_path old0) - 1 <= n)%nat -> (plen (sp_path old1) - 1 <= n)%nat ->
+  e_i0 e0 <= e_i1 e0 <= e_i2 e0 -> e_i0 e0 < e_i2 e0 -> e_i2 e0 = e_i0 e1 ->
+  is_wf (e_move e0) || is_wf (e_move e1) = false ->
+  det_retis2 n e0 e1 old0 old1 = Out true new0 new1 st calls nd ->
+  exists new0' new1' calls',
+    det_retis2 n e0 e1 new0 new1 = Out true new0' new1' ACC calls' 0 /\
+    map c_eng calls' = [E0; E1] /\
+    orders (sp_path new0') = orders (sp_path old0) /\ orders (sp_path new1') = orders (sp_path old1).
+Proof.
+  intros Ha Hb Hm Hp Hml H1 H2 H3 H4 H5 H6 H7 H8 D1.
+  destruct (swap_back_accepted2 n e0 e1 old0 old1 a0 b0 new0 new1 st calls nd Ha Hb Hm Hp Hml H1 H2 H3 H4 H5 H6 H7 H8 D1)
+    as (new0' & new1' & calls' & D2).
+  exists new0', new1', calls'. split; [exact D2|]. split.
+  - destruct (det_retis2_engines _ _ _ _ _ _ _ _ _ _ D2) as (? & ? & _ & _ & He & _). exact He.
+  - eapply swap_twice_id2; try eassumption; [apply minus_valid_shape|apply plus_valid_shape]; assumption.
+Qed.
+
+End Rev2.
+
+(* one engine for both ensembles is the special case T0 = T1, R0 = R1 *)
+Lemma det_retis_is_det_retis2 X T R ord enc dec n e0 e1 old0 old1 :
+  det_retis X T R ord enc dec n e0 e1 old0 old1 = det_retis2 X T R T R ord enc dec n e0 e1 old0 old1.
+Proof. reflexivity. Qed.
+
 (* ================================================================== corollaries stated on the move itself *)
 
 Section Corollaries.
@@ -1337,6 +1666,28 @@ Proof.
   eapply retis_swap_valid; eassumption.
 Qed.
 
+(* which engine object produced which frames of an accepted swap: the first call is made on
+   engine0 (the [0-] engine), backward, and every frame of the new [0-] path but the last (the
+   dumped copy of old[0+][1]) is a frame of ITS answer; the second call is made on engine1 (the
+   [0+] engine), forward, and every frame of the new [0+] path but the first (the dumped copy of
+   old[0-][-2]) is a frame of ITS answer *)
+Theorem retis_swap_engines e0 e1 old0 old1 streams draws sp0 sp1 st calls nd :
+  retis_swap_zero dumpf e0 e1 old0 old1 streams draws = Out true sp0 sp1 st calls nd ->
+  exists f10 f11 tl1 pre0 f0m2 f0l s0 s1 rest k0 k1,
+    pts (sp_path old1) = f10 :: f11 :: tl1 /\ pts (sp_path old0) = pre0 ++ [f0m2; f0l] /\
+    streams = s0 :: s1 :: rest /\
+    map c_eng calls = [E0; E1] /\ map c_rev calls = [true; false] /\ map c_used calls = [k0; k1] /\
+    map c_init calls = [copy_frame 0 f10; copy_frame 0 f0l] /\
+    pts (sp_path sp0) = rev (firstn k0 s0) ++ [dump dumpf DSecond f11] /\
+    map erase (pts (sp_path sp1)) = erase (dump dumpf DSecondLast f0m2) :: map erase (firstn k1 s1).
+Proof.
+  intros H. apply retis_acc_struct in H as (_ & _ & _ & Hsh).
+  destruct Hsh as (f10 & f11 & tl1 & pre0 & f0m2 & f0l & s0 & s1 & rest & k0 & k1 & Ho1 & Ho0 & Hs & Hp0 & _ & _ & Hp1 & _ & _ &
+          _ & _ & _ & _ & _ & _ & _ & _ & _ & _ & _ & ->).
+  exists f10, f11, tl1, pre0, f0m2, f0l, s0, s1, rest, k0, k1.
+  repeat split; assumption.
+Qed.
+
 (* an accepted swap made exactly two engine calls and never took the early exit *)
 Theorem retis_acc_two_calls e0 e1 old0 old1 streams draws sp0 sp1 st calls nd :
   retis_swap_zero dumpf e0 e1 old0 old1 streams draws = Out true sp0 sp1 st calls nd ->
@@ -1380,20 +1731,20 @@ Lemma quantis_complete_acc e0 e1 tmp0 tmp1 sc streams calls nd p0 p1 st calls' n
     (1 <= k2 <= length s2)%nat /\ (1 <= k3 <= length s3)%nat /\
     (3 <= plen (sp_path p0) < e_maxlen e0)%nat /\ (3 <= plen (sp_path p1) < e_maxlen e0)%nat /\
     e_i2 e0 <= ford t1l /\
-    calls' = calls ++ [mkCall (copy_frame 0 t00) true (e_i0 e0) (e_i2 e0) (e_maxlen e0 - 1) k2;
-                       mkCall (copy_frame 0 t1l) false (e_i0 e1) (e_i2 e1) (e_maxlen e0 - 1) k3].
+    calls' = calls ++ [mkCall E0 (copy_frame 0 t00) true (e_i0 e0) (e_i2 e0) (e_maxlen e0 - 1) k2;
+                       mkCall E1 (copy_frame 0 t1l) false (e_i0 e1) (e_i2 e1) (e_maxlen e0 - 1) k3].
 Proof.
   unfold quantis_complete. intros H Htmp1.
   destruct (first_frame tmp0) as [t00|] eqn:Et00; [|discriminate].
   destruct (negb sc); [discriminate|].
-  destruct (engine_call _ streams _ true _ _) as [[[back0 str1] c2]|] eqn:E2; [|discriminate].
+  destruct (engine_call _ _ streams _ true _ _) as [[[back0 str1] c2]|] eqn:E2; [|discriminate].
   set (new0 := paste back0 tmp0 true (Some (e_maxlen e0))) in *.
   destruct (Nat.leb_spec (e_maxlen e0) (plen new0)) as [|Hlt0]; [discriminate|].
   destruct (Nat.ltb_spec (plen new0) 3) as [|Hge0]; [discriminate|].
   destruct (negb (e_scL e0) && has_L_start_end new0 e0); [discriminate|]. cbn [is_acc negb] in H.
   destruct (last_frame tmp1) as [t1l|] eqn:Et1l; [|discriminate].
   destruct (Z.ltb_spec (ford (copy_frame 0 t1l)) (e_i2 e0)) as [|Hge]; [discriminate|].
-  destruct (engine_call _ str1 _ false _ _) as [[[forw1 str2] c3]|] eqn:E3; [|discriminate].
+  destruct (engine_call _ _ str1 _ false _ _) as [[[forw1 str2] c3]|] eqn:E3; [|discriminate].
   set (new1 := paste (reverse 0 tmp1 false) forw1 true (Some (e_maxlen e0))) in *.
   destruct (start_point new1 _ _) as [sp|]; [|discriminate].
   destruct (Nat.eqb_spec (plen new1) (e_maxlen e0)) as [|Hne1]; [discriminate|].
@@ -1442,7 +1793,7 @@ Theorem quantis_junction e0 e1 b0 b1 old0 old1 streams draws p0 p1 st calls nd :
     orders (sp_path p1) = ford f0m2 :: ford H1 :: forw /\
     ford f10 < e_i2 e0 < ford H0 /\ ford f0m2 < e_i2 e0 < ford H1 /\
     (3 <= plen (sp_path p0) < e_maxlen e0)%nat /\ (3 <= plen (sp_path p1) < e_maxlen e0)%nat /\
-    st = ACC /\ length calls = 4%nat.
+    st = ACC /\ length calls = 4%nat /\ map c_eng calls = [E0; E1; E0; E1].
 Proof.
   unfold quantis_swap_zero.
   destruct (first_frame (sp_path old1)) as [f10|] eqn:Ef10; [|discriminate].
@@ -1451,9 +1802,9 @@ Proof.
   destruct (Z.ltb_spec (ford (copy_frame 0 f10)) (e_i2 e0)) as [HL0|]; [|discriminate].
   destruct (Z.ltb_spec (ford (copy_frame 0 f0m2)) (e_i2 e0)) as [HL1|]; [|discriminate].
   cbn [negb orb copy_frame ford] in *.
-  destruct (engine_call (empty_path 2 0) streams _ false _ _) as [[[tmp0 str1] c0]|] eqn:E0; [|discriminate].
+  destruct (engine_call _ (empty_path 2 0) streams _ false _ _) as [[[tmp0 str1] c0]|] eqn:E0; [|discriminate].
   destruct (end_is_R1 tmp0 (e_i2 e0)) eqn:ER0; cbn [negb]; [|discriminate].
-  destruct (engine_call (empty_path 2 0) str1 _ false _ _) as [[[tmp1 str2] c1]|] eqn:E1; [|discriminate].
+  destruct (engine_call _ (empty_path 2 0) str1 _ false _ _) as [[[tmp1 str2] c1]|] eqn:E1; [|discriminate].
   destruct (end_is_R1 tmp1 (e_i2 e0)) eqn:ER1; cbn [negb]; [|discriminate].
   destruct (quantis_energies _ _ _ _ _) as [en|]; [|discriminate].
   destruct draws as [|u drest]; [discriminate|].
@@ -1496,10 +1847,80 @@ Proof.
   split; [reflexivity|]. split; [reflexivity|]. split; [reflexivity|].
   split; [unfold orders; rewrite Hp0, map_app; cbn [map]; rewrite HG2, Hg0; reflexivity|].
   split; [unfold orders; rewrite map_ford_erase, Hp1, map_app; cbn [map erase fst app]; rewrite Hg1; reflexivity|].
-  split; [lia|]. split; [lia|]. split; [exact Hl0|]. split; [exact Hl1|]. split; [exact Hst|reflexivity].
+  split; [lia|]. split; [lia|]. split; [exact Hl0|]. split; [exact Hl1|]. split; [exact Hst|split; reflexivity].
 Qed.
 
 End QJ.
+
+(* ================================================================== QuanTIS: which engine object every call is made on *)
+
+Lemma engine_call_eng who p streams init rv l r p' rest c :
+  engine_call who p streams init rv l r = Ok (p', rest, c) -> c_eng c = who.
+Proof.
+  unfold engine_call. destruct streams as [|[|f tl] rest0]; try discriminate.
+  destruct (MovesM.propagate_fixed p f tl l r); try discriminate. intros H; inversion H; reflexivity.
+Qed.
+
+Section QE.
+Variable vpot_of : Z -> option Q.
+Variable expf : Q -> Q.
+
+Lemma quantis_complete_engines e0 e1 tmp0 tmp1 sc streams calls nd acc p0 p1 st calls' nd' :
+  quantis_complete e0 e1 tmp0 tmp1 sc streams calls nd = Out acc p0 p1 st calls' nd' ->
+  exists k, map c_eng calls' = map c_eng calls ++ firstn k [E0; E1].
+Proof.
+  unfold quantis_complete.
+  destruct (first_frame tmp0); [|discriminate].
+  destruct (negb sc).
+  { intros H; inversion H; subst. exists 0%nat. symmetry; apply app_nil_r. }
+  destruct (engine_call _ _ streams _ true _ _) as [[[back0 str1] c0]|] eqn:E0; [|discriminate].
+  apply engine_call_eng in E0.
+  match goal with |- context [is_acc ?x] => set (st0 := x) end.
+  destruct (is_acc st0) eqn:A0; cbn [negb].
+  2:{ intros H; inversion H; subst. exists 1%nat. rewrite map_app. cbn [map firstn]. rewrite E0. reflexivity. }
+  destruct (last_frame tmp1); [|discriminate].
+  destruct (ford _ <? _).
+  { intros H; inversion H; subst. exists 1%nat. rewrite map_app. cbn [map firstn]. rewrite E0. reflexivity. }
+  destruct (engine_call _ _ str1 _ false _ _) as [[[forw1 str2] c1]|] eqn:E1; [|discriminate].
+  apply engine_call_eng in E1.
+  destruct (start_point _ _ _) as [sp|]; [|discriminate].
+  match goal with |- context [is_acc ?x] => set (st1 := x) end.
+  destruct (is_acc st1) eqn:A1; cbn [negb];
+    intros H; inversion H; subst; exists 2%nat; rewrite !map_app; cbn [map firstn app]; rewrite E0, E1, <- app_assoc; reflexivity.
+Qed.
+
+(* whatever the outcome (accepted or rejected at any stage): the propagate calls of the QuanTIS
+   swap are made on engine0, engine1, engine0, engine1 in this order (a prefix of it when the
+   move stops early): the one-step and the backward run of [0-] on the [0-] engine, the one-step
+   and the forward run of [0+] on the [0+] engine *)
+Theorem quantis_calls_engines e0 e1 b0 b1 old0 old1 streams draws acc p0 p1 st calls nd :
+  quantis_swap_zero vpot_of expf e0 e1 b0 b1 old0 old1 streams draws = Out acc p0 p1 st calls nd ->
+  exists k, map c_eng calls = firstn k [E0; E1; E0; E1].
+Proof.
+  unfold quantis_swap_zero.
+  destruct (first_frame (sp_path old1)) as [f10|]; [|discriminate].
+  destruct (last2_frame (sp_path old0)) as [f0m2|]; [|discriminate].
+  destruct (is_none _ || is_none _).
+  { intros H; inversion H; subst. exists 0%nat. reflexivity. }
+  destruct (negb _ || negb _).
+  { intros H; inversion H; subst. exists 0%nat. reflexivity. }
+  destruct (engine_call _ (empty_path 2 0) streams _ false _ _) as [[[tmp0 str1] c0]|] eqn:E0; [|discriminate].
+  apply engine_call_eng in E0.
+  destruct (negb (end_is_R1 tmp0 (e_i2 e0))).
+  { intros H; inversion H; subst. exists 1%nat. cbn [map firstn]. rewrite E0. reflexivity. }
+  destruct (engine_call _ (empty_path 2 0) str1 _ false _ _) as [[[tmp1 str2] c1]|] eqn:E1; [|discriminate].
+  apply engine_call_eng in E1.
+  destruct (negb (end_is_R1 tmp1 (e_i2 e0))).
+  { intros H; inversion H; subst. exists 2%nat. cbn [map firstn]. rewrite E0, E1. reflexivity. }
+  destruct (quantis_energies _ _ _ _ _) as [en|]; [|discriminate].
+  destruct draws as [|u drest]; [discriminate|].
+  destruct (e_accept_all e0 || Qle_bool u _).
+  - intros H. apply quantis_complete_engines in H as (k & Hk). exists (2 + k)%nat.
+    rewrite Hk. cbn [map app firstn Nat.add]. rewrite E0, E1. reflexivity.
+  - intros H; inversion H; subst. exists 2%nat. cbn [map firstn]. rewrite E0, E1. reflexivity.
+Qed.
+
+End QE.
 
 (* ------------------------------------------------------------------ a concrete instance (for the Examples) *)
 (* states = (time on one fixed trajectory, direction of time); one step moves along the
@@ -1533,3 +1954,38 @@ Definition old0 : spath := mkSP (mkP (map fr [-3; -2; -1; 0]) 10 0) ACC 1.
 Definition old1 : spath := mkSP (mkP (map fr [5; 6; 7; 8]) 10 0) ACC 1.
 End Clock.
 
+
+(* ------------------------------------------------------------------ a concrete instance with two different engines *)
+(* same phase space, reversal, configurations and order parameter (another table); engine0 moves
+   one table entry per step, engine1 two: different dynamics, both time-reversible *)
+Module Clock2.
+Definition X : Type := Z * bool.
+Definition T0 (s : X) : X := let '(t, d) := s in (if d then t - 1 else t + 1, d).
+Definition T1 (s : X) : X := let '(t, d) := s in (if d then t - 2 else t + 2, d).
+Definition R (s : X) : X := let '(t, d) := s in (t, negb d).
+(*                             t = -3 -2 -1  0  1  2  3  4  5  6  7  8  9 10 11 12 13 14 15 16 *)
+Definition table : list Z := [  3; 1; 0; 3; 9; 4; 9; 1; 9; 9; 9; 4; 0; 1; 9; 3; 9; 5; 9; 6].
+Definition ord (s : X) : Z := nth (Z.to_nat (fst s + 3)) table 9.
+Definition enc : X -> Z := Clock.enc.
+Definition dec : Z -> X := Clock.dec.
+
+Lemma RR x : R (R x) = x.
+Proof. destruct x as [t d]. cbn. rewrite negb_involutive. reflexivity. Qed.
+Lemma RT0 x : R (T0 (R (T0 x))) = x.
+Proof. destruct x as [t []]; cbn; f_equal; lia. Qed.
+Lemma RT1 x : R (T1 (R (T1 x))) = x.
+Proof. destruct x as [t []]; cbn; f_equal; lia. Qed.
+Lemma ordR x : ord (R x) = ord x.
+Proof. destruct x as [t d]. reflexivity. Qed.
+Lemma decenc x : dec (enc x) = x.
+Proof. apply Clock.decenc. Qed.
+Lemma T0_neq_T1 : T0 (0, false) <> T1 (0, false).
+Proof. discriminate. Qed.
+
+Definition fr (t : Z) : frame := mkF (ord (t, false)) (enc (t, false)) false 0.
+Definition e0 : ens := mkEns (-100) 2 2 false true Msh 10 None false.
+Definition e1 : ens := mkEns 2 2 5 true false Msh 10 None false.
+(* a trajectory of engine0: [3;1;0;3];  a trajectory of engine1: [1;3;5;6] *)
+Definition old0 : spath := mkSP (mkP (map fr [-3; -2; -1; 0]) 10 0) ACC 1.
+Definition old1 : spath := mkSP (mkP (map fr [10; 12; 14; 16]) 10 0) ACC 1.
+End Clock2.
